@@ -14,7 +14,7 @@ RULE = ("random histories (as C12) in which invalid calls are injected at every 
         "array operands, negative factors, histogram*histogram, over-subtraction, wrong weight shapes and column counts, invalid and lossy "
         "dtypes, bad weights, merge amounts, axes and indices; after every public call shapes / signs are checked on every object touched, "
         "after every raise the target's contents per interval, errors2 and missed values must be unchanged; non-trivial = history with "
-        ">= 2 injected faults that raised on a target holding content; distinct by hash of the operation log `C13.narrow_count_case` also runs here (a fill_n that raises has booked nothing); collections: normalize_all with a member that cannot be normalised; world faults include set_adaptive on right-closed bins and an adaptive ND addend of another width on the last axis.")
+        ">= 2 injected faults that raised on a target holding content; distinct by hash of the operation log `C13.narrow_count_case` also runs here (a fill_n that raises has booked nothing); `negative_counter_case`: fill_n on a histogram whose missed counter was left negative by free arithmetics; collections: normalize_all with a member that cannot be normalised; world faults include set_adaptive on right-closed bins and an adaptive ND addend of another width on the last axis.")
 ASSUMPTIONS = [
     "negative weights are outside the statement and not injected; zero divisors, weights whose square overflows, and blocks of free arithmetics left by an exception are",
     "a lossless dtype promotion and zero-content bin growth before the raise are allowed (statement)",
@@ -100,6 +100,66 @@ def collection_case(ctx, index: int, rng: random.Random):
     rec.case(["collection", which, e], True, cls=f"collection/{which}")
 
 
+def negative_counter_case(ctx, index: int, rng: random.Random):
+    """A histogram whose under/overflow counter was left negative by a subtraction under free arithmetics, free arithmetics off again:
+    a fill_n that raises has booked nothing; one that is accepted has booked every value exactly once."""
+    import numpy as np
+    import physt
+    from physt.config import config
+    from .. import snapshot as snap
+
+    rec = ctx.rec
+    rec.mon("C18.world.atomicity")
+    nd = rng.random() < 0.3
+    n = rng.randint(2, 6)
+    lo = float(rng.choice([0.0, -3.0, 10.0]))
+    e = np.linspace(lo, lo + n, n + 1)
+    inside = lambda k: [float(rng.uniform(lo + 0.01, lo + n - 0.01)) for _ in range(k)]
+    below = lambda k: [lo - 1.0 - rng.random() for _ in range(k)]
+    above = lambda k: [lo + n + 1.0 + rng.random() for _ in range(k)]
+    if nd:
+        mk = lambda xs: physt.h2(np.array(xs), np.array(xs), [e, e])
+    else:
+        mk = lambda xs: physt.h1(np.array(xs), e)
+    a_inside = inside(rng.randint(3, 8))
+    a = mk(a_inside + above(rng.randint(0, 1)))
+    # (the bins themselves stay non-negative: only the counters outside go below zero)
+    b = mk(a_inside[:rng.randint(0, 2)] + above(rng.randint(2, 4)) + below(rng.randint(0, 2)))
+    with warnings.catch_warnings():
+        warnings.simplefilter("ignore")
+        with config.enable_free_arithmetics():
+            d = a + b * (-1) if rng.random() < 0.5 else a - b
+    new = rng.choice([inside(3), inside(2) + below(1), inside(1) + above(2), below(1) + above(1), above(4)])
+    weights = rng.choice([None, None, [float(rng.choice([0.5, 2.0, 1.5])) for _ in new]])
+    with attach.quiet():
+        before = snap.snapshot(d, with_stats=False)
+    err = None
+    try:
+        with warnings.catch_warnings():
+            warnings.simplefilter("ignore")
+            if nd:
+                d.fill_n(np.array([new, new]).T, weights=weights)
+            else:
+                d.fill_n(new, weights=weights)
+    except Exception as ex:
+        err = ex
+    with attach.quiet():
+        after = snap.snapshot(d, with_stats=False)
+        # (a lossless promotion of the content type before the raise is allowed by the statement)
+        changed = sorted(k for k in snap.diff(before, after, ignore=("dtype",))
+                         if not (k in ("frequencies", "errors2") and snap.values_equal_numeric(before[k], after[k])))
+    if err is not None and changed:
+        rec.fail(monitor="C18.world.atomicity", op="fill_n.negative_counter", symptom=f"fill_n raised {type(err).__name__} but the histogram was changed",
+                 diff=changed, detail={"nd": nd, "new": new, "weights": weights, "error": str(err)[:100], "before": {k: before[k] for k in changed}, "after": {k: after[k] for k in changed}})
+    if err is None:
+        w = weights or [1.0] * len(new)
+        want = sum(w)
+        got = float(np.sum(d.frequencies) - np.sum(snap.arr_values(before["frequencies"]))) + float(np.nansum(d.missed) - before.get("missed_total", 0.0) if not nd else d.missed - before["missed"])
+        if abs(got - want) > 1e-9:
+            rec.fail(monitor="C18.world.atomicity", op="fill_n.negative_counter", symptom="an accepted fill_n did not book every value exactly once", diff=["total"], detail={"want": want, "got": got, "nd": nd})
+    rec.case(["negcounter", nd, e.tolist(), new, weights, before["frequencies"]], True, cls=f"negative_counter/{'nd' if nd else '1d'}/{'raised' if err is not None else 'accepted'}")
+
+
 def attach_monitors(ctx):
     ctx.world = World(passive=False)
     attach_world(ctx.world)
@@ -119,6 +179,7 @@ def run(ctx):
     attach_monitors(ctx)
     ctx.run_cases(ctx.scale(350, 3000), one_history)
     ctx.run_cases(ctx.scale(40, 200), collection_case, salt="collection")
+    ctx.run_cases(ctx.scale(80, 400), negative_counter_case, salt="negcounter")
     # counting into compact integer types close to their top: a fill_n that raises has booked nothing (judged here), one that
     # succeeds has the exact counts (judged by C13, where the same workload runs)
     from . import C13
